@@ -18,10 +18,17 @@ package admission
 // C14: the AdmissionResponse relays the hook's verdict: same allowed flag, message (as a 403
 // status when denied), warnings and patch (with patch type JSONPatch exactly when there is a
 // patch), echoing the request UID; any handler error gives an error (answered as a denial).
+//@ ghost lastReviewed *v1.AdmissionRequest
+//@ ghost lastReviewResp *v1.AdmissionResponse
+//@ ghost lastReviewErr error
 //@ func (*WebhookHandler).handleReviewRequest
 //@   prop C14
 //@   requires request != nil
-//@   modifies lastResp, lastErr, lastEvent
+//@   modifies lastResp, lastErr, lastEvent, lastReviewed, lastReviewResp, lastReviewErr
+//@   ghostset lastReviewed := request
+//@   ghostset lastReviewResp := result0
+//@   ghostset lastReviewErr := result1
+//@   ensures [fresh]         result1 == nil ==> fresh(result0)
 //@   ensures [no-handler]    h.Handler == nil ==> result1 != nil
 //@   ensures [fail-closed]   h.Handler != nil && lastErr != nil ==> result1 == lastErr && result0 == nil
 //@   ensures [uid]           result1 == nil ==> result0 != nil && result0.UID == request.UID
@@ -35,4 +42,18 @@ package admission
 //@ func errored
 //@   prop C14
 //@   requires err != nil
-//@   ensures [denied] result != nil && !result.Allowed && result.Result != nil && result.Result.Code == 500
+//@   modifies nothing
+//@   ensures [denied] result != nil && fresh(result) && !result.Allowed && result.Result != nil && result.Result.Code == 500
+
+// C14: what is written to the API server is one AdmissionReview whose response echoes the UID of
+// the decoded request and is either the response built by handleReviewRequest or, after any
+// error, a denial. (Decoding the body and serialising the answer are net/http + encoding/json.)
+//@ func (*WebhookHandler).serveReviewRequest
+//@   prop C14
+//@   requires r != nil
+//@   modifies lastResp, lastErr, lastEvent, lastReviewed, lastReviewResp, lastReviewErr, json.nEncoded, json.lastEncoded
+//@   ensures [at-most-one-answer] json.nEncoded == old(json.nEncoded) || json.nEncoded == old(json.nEncoded) + 1
+//@   ensures [uid-echoed]      json.nEncoded == old(json.nEncoded) + 1 ==> dyntype(json.lastEncoded, v1.AdmissionReview)
+//@        && json.lastEncoded.(v1.AdmissionReview).Response != nil && json.lastEncoded.(v1.AdmissionReview).Response.UID == lastReviewed.UID
+//@   ensures [error-denied]    json.nEncoded == old(json.nEncoded) + 1 && lastReviewErr != nil ==> !json.lastEncoded.(v1.AdmissionReview).Response.Allowed
+//@   ensures [verdict-relayed] json.nEncoded == old(json.nEncoded) + 1 && lastReviewErr == nil ==> json.lastEncoded.(v1.AdmissionReview).Response == lastReviewResp
